@@ -10,6 +10,12 @@ import CnfgenModel.Rand.GraphDraws
 import CnfgenModel.Graph.Basic
 import CnfgenModel.Core.Iter
 namespace Cnfgen.GRand
+
+/-- `range(3 * d * d)`: random tries per edge of `bipartite_random_regular` (tied to the source by
+`Props/C15/Source.lean`) -/
+abbrev regularRetries (d : Nat) : Nat := 3 * d * d
+/-- `L * R // 3`: above this many edges `bipartite_random_m_edges` samples densely -/
+abbrev glrmDenseThreshold (L R : Int) : Int := L * R / 3
 open Cnfgen
 
 /-- `sorted(l)` for natural numbers -/
@@ -60,7 +66,7 @@ def pairsToInt (es : List (Nat × Nat)) : List (Int × Int) := es.map (fun e => 
 Dense branch (`m > L*R//3`): `for u, v in random.sample(E, m): G.add_edge(u, v)` with
 `E = [(u, v) for u in U for v in V]`. -/
 def mEdgesBody (L R m : Int) : RM BipG :=
-  if m > L * R / 3 then do
+  if m > glrmDenseThreshold L R then do
     let es ← samplePairs (allPairs L.toNat R.toNat) m
     RM.lift ((BipG.init L.toNat R.toNat).addEdgesFrom (pairsToInt es))
   else fun ds => mEdgesSparse L R ds.length m.toNat (BipG.init L.toNat R.toNat) ds
@@ -145,7 +151,7 @@ def randomRegular (l r d : Int) : (fuel : Nat) → RM BipG
       let N := (l * d).toNat
       let A := repeatRange l.toNat d.toNat
       let B := repeatRange r.toNat (l * d / r).toNat
-      match ← regularLoop (3 * d.toNat * d.toNat) N N 0 (BipG.init l.toNat r.toNat) A B with
+      match ← regularLoop (regularRetries d.toNat) N N 0 (BipG.init l.toNat r.toNat) A B with
       | some G => pure G
       | none => randomRegular l r d fuel
 
